@@ -25,7 +25,7 @@ CHECKS = {
    ref="DESIGN.md §5 C02, §4.2"),
  "C03": dict(
    technique="PBT differential against independently re-implemented recurrences with carried rounding allowance",
-   text="EMA/DMA/TMA/DEMA/TEMA/RMA/WSMA/TSI/Vidya/TR/HeikinAshi/Integral(0)/ADI(0) against their documented recurrences at every step of generated streams, all lengths, (short,long) grid for TSI, plateau-after-movement regimes counted.",
+   text="EMA/DMA/TMA/DEMA/TEMA/RMA/WSMA/TSI/Vidya/TR/HeikinAshi/Integral(0)/ADI(0) against their documented recurrences at every step of generated streams, all lengths 1..=254 and PeriodType::MAX where the constructor accepts it, (short,long) grid for TSI, plateau-after-movement regimes counted.",
    note="Trusted: reference recurrences in props/c03.rs; K=256. Vidya/TSI steps with an ill-conditioned ratio are checked by a hull predicate only (counted).",
    ref="DESIGN.md §5 C03"),
  "C14": dict(
@@ -75,7 +75,7 @@ CHECKS = {
    ref="DESIGN.md §5 C08, Appendix A"),
  "C12": dict(
    technique="PBT invariant checking with regime-biased generators (volatile -> exactly flat -> volatile, zero volume, high == low)",
-   text="All 37 indicators on regime streams sized to the configuration's longest window, every step: documented intervals, band orderings, channel containment, SAR side (exact), non-negative dispersion, clv range and finiteness of every value wherever the formula is defined; no conditioning exemption for the flat regimes.",
+   text="All 37 indicators on regime streams sized to the configuration's longest window, every step: documented intervals (incl. TrendStrengthIndex in [-1,1] with a conditioning-aware allowance and a generator of exactly linear stretches), band orderings, channel containment, SAR side (exact), non-negative dispersion, clv range and finiteness of every value wherever the formula is defined; no conditioning exemption for the flat regimes.",
    note="Pure predicates on outputs, no reference model. Five fix: commits (RSI, MFI, CMO, TrendStrengthIndex, Vidya) removed the violations found.",
    ref="DESIGN.md §5 C12, Appendix A"),
  "C07": dict(
